@@ -165,10 +165,9 @@ class Check:
         impl = os.path.join(d, comp + ".impl")
         model = os.path.join(d, comp + ".model")
         mr = os.path.join(OCAML, model_project, "_build", "default", "modelrun.exe")
-        with open(cases, "rb") as fin, open(model, "wb") as fout:
-            p = subprocess.run([mr, comp], stdin=fin, stdout=fout, stderr=subprocess.PIPE, timeout=timeout)
-        if p.returncode != 0:
-            self.broken_correspondence(name, "modelrun failed: " + p.stderr.decode()[-1000:], [])
+        err = run_model_parallel(mr, comp, cases, model, timeout)
+        if err:
+            self.broken_correspondence(name, "modelrun failed: " + err[-1000:], [])
             return None
         divs = diff_files(cases, model, impl, limit=50)
         n = stats.get("cases", 0)
@@ -253,7 +252,7 @@ class Check:
         return path
 
     # ------------------------------------------------------------------ verdict
-    def finish(self, level, rule, trusted_base, assumptions, explanation=None, extra=None):
+    def finish(self, level, rule, trusted_base, assumptions, explanation=None, extra=None, exhaustive=False):
         if self.proof["broken"]:
             self.broken_proof()
         wall = time.time() - self.t0
@@ -274,7 +273,7 @@ class Check:
             "model_vs_impl_divergences": self.corr["divergences"],
             "oracle_failures_on_impl": self.corr["oracle_failures"],
             "known_findings_printed": self.known_printed,
-            "exhaustive": False,
+            "exhaustive": bool(exhaustive),
         }
         if "coqchk" in self.proof:
             cov["coqchk"] = self.proof["coqchk"]
@@ -442,6 +441,49 @@ def build_harness(packages, timeout=3000, profile="release"):
     return rc == 0, out
 
 
+def run_model_parallel(mr, comp, cases, model, timeout):
+    """Evaluate the extracted model on the cases, sharded over the cores (case lines are
+    independent of each other); the outputs are concatenated in order."""
+    size = os.path.getsize(cases)
+    nshard = 1 if size < (1 << 20) else min(int(NPROC), 16)
+    if nshard == 1:
+        with open(cases, "rb") as fin, open(model, "wb") as fout:
+            p = subprocess.run([mr, comp], stdin=fin, stdout=fout, stderr=subprocess.PIPE, timeout=timeout)
+        return None if p.returncode == 0 else p.stderr.decode()
+    with open(cases, "rb") as f:
+        lines = f.readlines()
+    per = (len(lines) + nshard - 1) // nshard
+    procs = []
+    for i in range(nshard):
+        chunk = lines[i * per:(i + 1) * per]
+        cin = "%s.shard%d" % (cases, i)
+        cout = "%s.shard%d" % (model, i)
+        with open(cin, "wb") as f:
+            f.writelines(chunk)
+        fin = open(cin, "rb")
+        fout = open(cout, "wb")
+        procs.append((subprocess.Popen([mr, comp], stdin=fin, stdout=fout, stderr=subprocess.PIPE), fin, fout, cin, cout))
+    err = None
+    deadline = time.time() + timeout
+    for p, fin, fout, cin, cout in procs:
+        try:
+            _, e = p.communicate(timeout=max(1, deadline - time.time()))
+        except subprocess.TimeoutExpired:
+            p.kill()
+            e = b"timeout"
+        fin.close()
+        fout.close()
+        if p.returncode != 0:
+            err = (e or b"").decode("utf-8", "replace") or "modelrun exited %s" % p.returncode
+    with open(model, "wb") as out:
+        for _, _, _, cin, cout in procs:
+            with open(cout, "rb") as f:
+                out.write(f.read())
+            os.unlink(cin)
+            os.unlink(cout)
+    return err
+
+
 def diff_files(cases, model, impl, limit=50):
     count = 0
     first = []
@@ -508,7 +550,8 @@ def replay_cases_file(replay_json, name, d):
     """Write the case lines of a replay file for the executor; None if for another component."""
     with open(replay_json) as f:
         obj = json.load(f)
-    if obj.get("component") not in (None, name):
+    comp = obj.get("component")
+    if comp is not None and comp != name and not comp.startswith(name + "-") and not name.startswith(comp + "-"):
         return None
     p = os.path.join(d, "replay.cases")
     with open(p, "w") as f:
